@@ -188,3 +188,36 @@ def allele_copy(gene, minor_name):
 def order_copies(copies):
     """Complete haplotypes (non-default configurations first) before extra default copies."""
     return sorted(copies, key=lambda c: c[0] == "1")
+
+
+def write_multi(path, sims_reads, mq=60, qual=40):
+    """One coordinate-sorted, indexed BAM holding the reads of several simulators (one contig each)."""
+    names = []
+    for sim, _ in sims_reads:
+        if sim.chrom not in [n for n, _ in names]:
+            names.append((sim.chrom, sim.L))
+        else:
+            i = [n for n, _ in names].index(sim.chrom)
+            names[i] = (sim.chrom, max(names[i][1], sim.L))
+    hdr = {"HD": {"VN": "1.0", "SO": "coordinate"}, "SQ": [{"SN": n, "LN": ln} for n, ln in names]}
+    tid = {n: i for i, (n, _) in enumerate(names)}
+    allr = []
+    for sim, reads in sims_reads:
+        for r in reads:
+            allr.append((tid[sim.chrom], r))
+    allr.sort(key=lambda x: (x[0], x[1][1]))
+    with pysam.AlignmentFile(path, "wb", header=hdr) as f:
+        for t, r in allr:
+            name, pos, cig, s = r[:4]
+            a = pysam.AlignedSegment(f.header)
+            a.query_name = name
+            a.reference_id = t
+            a.reference_start = pos
+            a.flag = 0
+            a.mapping_quality = mq
+            a.cigartuples = cig
+            a.query_sequence = s
+            a.query_qualities = pysam.qualitystring_to_array(chr(33 + qual) * len(s))
+            f.write(a)
+    pysam.index(path)
+    return path
